@@ -63,4 +63,14 @@ CHECKS = {
         ],
         assumptions=SIM_ASSUMPTIONS + ["conflicts are caused (a real external edit between the controller's GET and PUT), never fabricated; client-go's real 10/50/250 ms conflict back-off runs but is never used as an oracle"],
     ),
+    "C13": dict(
+        level="model_checking",
+        rule="grammar: valid response with every node replaced by each of 12 JSON values (missing, null, true, 0, -1, 1e400, 2^63, string, [], [null], {}, {x:null}); singles exhaustively (thorough: all pairs for the base configurations) + 17 raw bodies + 6 non-200 statuses, "
+             "x mode(non-rolling, rolling, rolling with two live revisions, finalizing) x generateSelector x strict/loose, for composite sync/finalize, customize and decorator sync/finalize responses; every case distinct",
+        units=[
+            dict(pkg=COMPOSITE, test="TestVerifC13", shards=dict(quick=12, thorough=16), budget=dict(quick=600, thorough=3000)),
+            dict(pkg=DECORATOR, test="TestVerifC13", shards=dict(quick=4, thorough=16), budget=dict(quick=600, thorough=3000)),
+        ],
+        assumptions=SIM_ASSUMPTIONS + ["byte-level coverage-guided fuzzing is outside this technique family and not claimed"],
+    ),
 }
